@@ -92,6 +92,29 @@ var knownClasses = []*knownClass{
 			`(?m)^  cue/errors\.writeErr@errors/errors\.go`, `(?m)^  internal/core/debug\.\(?\*?formatter\)?\.String@debug/debug\.go`, `stack overflow|SIGQUIT`},
 		Input: "any (recognised by the recursion cycle on the stack)",
 	},
+	{
+		ID: "F-C02-8",
+		What: "a declaration-level comprehension whose source is the enclosing closed struct, itself guarded by a self-referential " +
+			"`if c != _|_` (`c: close({if c != _|_ {w: {for v in c {x: 1}}}})` + `for v in c {}`): while Value.Fields(cue.All()) " +
+			"finalizes the arcs, processComprehension -> scheduleConjunct -> scheduleStruct calls Vertex.AddStruct (composite.go) on a nil " +
+			"vertex: nil pointer dereference, re-panicked by runTask, escapes the API",
+		How: []string{"panic"},
+		DetailRe: []string{`^PANIC \S+ (\[[^\]]*\] )?runtime error: invalid memory address or nil pointer dereference \|\| `,
+			`panic@runtime/panic\.go:\d+ < cuelang\.org/go/internal/core/adt\.\(\*Vertex\)\.AddStruct@adt/composite\.go:\d+ < cuelang\.org/go/internal/core/adt\.\(\*nodeContext\)\.scheduleStruct@adt/conjunct\.go`,
+			`adt\.\(\*nodeContext\)\.processComprehension@adt/comprehension\.go`},
+		Input: "any (recognised by the panic site and its callers)",
+	},
+	{
+		ID: "F-C02-9",
+		What: "an embedded list produced by a comprehension next to a comprehension guarded by an erroneous self-referential field " +
+			"(`g: {if a != _|_ {c: _, if c {}}, for v in {r: []} {v}}` + `a: (\"\" & \"\\(a)\") + \"\"`): " +
+			"processListLit (tasks.go) dereferences a nil pointer when the scheduler signals the task; the panic is re-panicked by runTask " +
+			"and escapes BuildFile/Validate (cue eval itself crashes with SIGSEGV)",
+		How: []string{"panic"},
+		DetailRe: []string{`^PANIC \S+ (\[[^\]]*\] )?runtime error: invalid memory address or nil pointer dereference \|\| `,
+			`panic@runtime/panic\.go:\d+ < cuelang\.org/go/internal/core/adt\.processListLit@adt/tasks\.go:\d+ < cuelang\.org/go/internal/core/adt\.runTask@adt/sched\.go`},
+		Input: "any (recognised by the panic site and its caller)",
+	},
 }
 
 func init() {
